@@ -71,6 +71,8 @@ _REACH = {0: ["put_overwrite", "put_insert", "put_full"], 1: ["get_hit", "get_mi
 for _order, _tier in ((2, "quick"), (3, "thorough")):
     for _kt in (0, 1, 2):
         for _mode in (0, 1, 2):
+            if _order == 3 and _kt == 2 and _mode != 1:
+                continue      # string keys at order 3: put/remove gave no verdict in 50 min (get does): outside the claim
             O(id="C17.step_%s_%s_o%d" % (_MODE[_mode], _KT[_kt], _order), props=["C17"] + (["C04", "C03"] if _kt == 2 and _order == 2 else []),
               harness="harness/c17_hashtable.c", tier=_tier,
               defines=["KT=%d" % _kt, "MODE=%d" % _mode, "ORDER=%d" % _order], unwind=(1 << _order) + 1,
@@ -667,7 +669,7 @@ _scn_guard = dict(_scn, harness="harness/scn_guard.c",
                   unwindset=dict(_scn["unwindset"], **{"verif_router_snprintf.0": 10, "verif_router_snprintf.1": 5}),
                   stubs=_SCN_STUBS + ["snprintf in router.c: stand-in for the two id formats"])
 for _g, _nm, _out in _GUARDS:
-    O(id="C04.guard_" + _nm, props=["C04", "C02", "C03"], entry="harness_guard", reach=[_out], defines=["GUARD=%d" % _g],
+    O(id="C04.guard_" + _nm, props=["C04", "C02", "C03", "C07"], entry="harness_guard", reach=[_out], defines=["GUARD=%d" % _g],
       functions=["add_element_to_peer", "init_element", "change_state", "set_or_call", "remove_element_from_peer", "element_table_get"],
       symbolic="value / argument", assumes=["set-up adds succeed"],
       bounds="O owns state 's', method 'm', fetch-only state 'f'; one request (%s) by A or O" % _nm, **_scn_guard)
@@ -722,3 +724,61 @@ for _off in (0, 5):
       symbolic="text bytes, length 0..25, is_complete; alignment %d" % _off, bounds="length <= 25 (two 64-bit words)", timeout={"quick": 900, "thorough": 3600},
       **dict(_c18, functions=["cjet_is_word_sequence_valid_auto_alligned"]))
 # (C19.offer_bytes - fill_requested_extension on symbolic offer bytes - gave no verdict in 25 min even for 3 symbolic bytes: not registered, see DESIGN.md 8.4)
+
+
+# ================================================================================================ notes updated after the later obligations were added
+PROPERTY_NOTES["C04"].update({
+    "composition": "The path index is an exact finite map (C17, string tables, shared obligations). guard_*: one request of every guarded kind against a state, "
+    "a method and a fetch-only state owned by O (set on method, call on state, set on fetch-only, unknown paths, change on method, add of a path owned by "
+    "another / the same peer, set without value, remove by a non-owner): refused with exactly one error, nothing routed, every element and value unchanged; "
+    "set on a state / call on a method are routed to the owner with the value unchanged. add_notify / change_by_* / remove_by_*: add succeeds iff the element "
+    "now exists, only the owner changes/removes, a request answered with an error changed nothing, the owner's request takes effect even if a subscriber cannot be notified.",
+    "outside": "arbitrary path strings (paths are short constants; the table hash is abstracted, collisions are C17's subject); get."})
+PROPERTY_NOTES["C05"].update({
+    "composition": "read_after_close_*: once a read callback or the error callback released the socket object the read loop does not touch it. "
+    "ws_end_*: the real websocket_peer.c/websocket.c teardown (close frame, connection freed, then peer bookkeeping) for a peer that owns a state, holds a fetch, "
+    "is caller of one routed request and owner of another, ended by FIN in a frame header, socket error, daemon shutdown or a client close frame: subscribers see "
+    "remove, the foreign caller gets one error, other peers' elements stay, timers destroyed, nothing read or written through the released connection (heap object "
+    "really freed), everything released afterwards. ws_header_eof / ws_ping_write_fails: FIN in any frame phase and an unanswerable ping end the connection once. "
+    "owner_leaves / caller_leaves / caller_leaves_after_element_removed / bystander_* / first_subscriber_leaves_by_disconnect: free_peer_resources for raw peers. "
+    "message_callback: FIN and malformed messages free the raw peer once.",
+    "outside": "HTTP-phase ends other than the request line (C13); buffered output at close; more than one element/fetch/request per role."})
+PROPERTY_NOTES["C09"].update({
+    "composition": "read_exact_step / read_until_step: one reader call from ANY buffer state with an arbitrary kernel hands out exactly the next stream bytes, loses/duplicates "
+    "none, keeps the invariant (one step from the invariant covers every segmentation). length_prefix / message_callback: the 4-byte big-endian prefix decides the next read "
+    "(zero skipped, otherwise exactly that many bytes), the parser gets exactly the message bytes. msg_bytes_only: the JSON library is entitled to read the message bytes only "
+    "(contract stubs of its entry points; exact-size buffer). header_machine / ext_length: WebSocket header reads.",
+    "outside": "M = 3 (quick) / 4 (thorough) byte buffers; equality of full daemon output across segmentations (reader x handlers composition is prose); the JSON parser's own reads (third-party); epoll batching beyond C14.batch_*."})
+PROPERTY_NOTES["C10"].update({
+    "composition": "writev_step: from any pending buffer one gathered write of a 2-chunk frame with an arbitrary kernel: accepted frames are fully sent-or-queued in order after "
+    "the old pending bytes; flush_step: writability events conserve bytes and order, report a hard error once, never spin; raw_header / send_frame: one frame = one gathered "
+    "write with a correct (raw: 4-byte big-endian; WebSocket: minimal) header.",
+    "outside": "W = 4 (quick) / 6 (thorough); frames of 2 chunks; 'never blocks' in the OS sense. KNOWN FINDING: a refused frame may already be partly sent/queued."})
+PROPERTY_NOTES["C12"].update({
+    "composition": "upgrade_rules: for every combination of present/well-formed key, version, protocol and other headers, method, HTTP version and upgrade flag the real header "
+    "callbacks + headers-complete + upgrade response answer 101 (with a 28-character accept value) exactly for valid upgrades; base64: the digest encoding decodes to its input. "
+    "header_machine + ext_length + payload_step: frame header decoding per RFC 6455 5.2, unmasked client frames refused with 1002. frame_rules(_payload10) / ws_daemon_callbacks: "
+    "outcome per (FIN, RSV, opcode, fragmentation state, length class) equals the RFC table, close codes per 7.4.1, fragmented messages are processed or refused with 1003. "
+    "unmask_off*: xor with mask[i mod 4] at every alignment. send_frame / close_frame: server frames FIN, unmasked, minimally length-encoded.",
+    "outside": "the accept digest itself (SHA-1 stubbed: hashing loop over symbolic input is not encoded); 'same JSON-RPC behaviour as the raw transport' (both call parse_message: read, "
+    "not checked); payloads > 10 bytes except the 125/126 boundary; permessage-deflate (C19)."})
+PROPERTY_NOTES["C14"].update({
+    "composition": "timeout_value (z3): precedence, 1 ms lower bound, uint64 upper bound and seconds->ns conversion for every double; timeout_huge: no undefined conversion; "
+    "itimerspec_full_range (cvc5 integer encoding): every 64-bit deadline splits into sec/nsec; precedence_*: the armed deadline is the request's, else the element's, else the "
+    "default (five combinations through the real add/set path); timer_lifecycle: one-shot, cancel reports cancellation; C14.timeout / C03.reply_*: expiry answers once, late reply "
+    "discarded, reply cancels and destroys the timer; batch_*: reply and expiry harvested in one epoll batch, in both orders, through the real eventloop_epoll.c and "
+    "timer_linux.c: exactly one answer, no released object touched.",
+    "outside": "'no earlier than the deadline' (kernel timerfd semantics); batches of more than two events; caller/owner disconnect in the same batch."})
+PROPERTY_NOTES["C19"].update({
+    "composition": "reassemble: two fragments of arbitrary lengths (<= 16) are appended inside the (re)allocated buffer; inflate_buffers: the inflate driver keeps its input copy "
+    "and the doubled output buffer inside their allocations for every behaviour of inflate (contract stub); negotiation_*: six concrete offers: the answer names only offered or "
+    "server-choosable parameters, window bits 8..15, response <= 128 bytes.",
+    "outside": "NOT APPLICABLE PART: the lossless round trip and corrupt-stream rejection inside zlib's inflate/deflate (input-length dependent compression loops: not encoded). "
+    "Offer parsing on symbolic bytes (no verdict in 25 min). In the daemon the extension is never enabled (compression level 0)."})
+
+# ------------------------------------------------------------------------------------------------ websocket_peer.c leaves
+_wsp = dict(harness="harness/wsp_leaves.c", unwind=6, stubs=["parse_message: records (pointer, length), symbolic verdict", "log_peer_*: empty", "memcpy: CBMC built-in (bounds checked)"])
+O(id="C06.pong_payload_copy", props=["C06", "C12"], entry="harness_pong", reach=["long_pong"], functions=["pong_received"],
+  symbolic="pong payload length 0..125 (exact-size heap object)", assumes=[], bounds="control frame payload <= 125 bytes (the frame rules refuse longer ones: C12.frame_rules)", **_wsp)
+O(id="C12.text_to_dispatcher", props=["C12", "C09"], entry="harness_text", functions=["text_message_callback"],
+  symbolic="message length 0..4, dispatcher verdict", assumes=[], bounds="none", **_wsp)
